@@ -1234,6 +1234,36 @@ func rawTxn(r *prng.R, heavy bool) string {
 		prng.Pick(r, []int{200, 0, 429, 500, -1, 99999}))
 }
 
+// realCase: flows over REAL processors that rewrite the request / response (TransformAPICall set / delete /
+// obfuscate, DataSanitation) or answer it (GenerateResponse behind a TransformAPICall), optionally next to a probe
+// flow and a quota, hit with transactions of arbitrary content through the production SPOE message handler.
+func realCase(r *prng.R, id string) proto.Case {
+	ops := append([]string{}, vocabLines...)
+	if r.Chance(40) {
+		ops = append(ops, fmt.Sprintf("quota q1 url=%s %s", prng.Pick(r, []string{"verif.test/*", "verif.test/x"}), validStrat(r).words()))
+	}
+	tmpls := []string{"transform-set", "transform-delete", "sanitize", "generate"}
+	n := r.Range(1, 2)
+	for i := 0; i < n; i++ {
+		ops = append(ops, fmt.Sprintf("rflow r%d %s", i, prng.Pick(r, tmpls)))
+	}
+	if r.Chance(35) {
+		ops = append(ops, baseFlow("f1")...)
+	}
+	ops = append(ops, "load")
+	for i := 0; i < 10; i++ {
+		t := rawTxn(r, true)
+		if r.Chance(50) { // keep the url on the flows' filter so that the rewriting processors really run
+			t = strings.Replace(t, " url="+strings.Split(strings.SplitN(t, " url=", 2)[1], " ")[0], " url=verif.test/x", 1)
+		}
+		if r.Chance(50) {
+			t += " full=1"
+		}
+		ops = append(ops, t)
+	}
+	return proto.Case{ID: id, Ops: ops}
+}
+
 func fuzzCase(r *prng.R, id string) proto.Case {
 	ops := append([]string{}, vocabLines...)
 	ops = append(ops, fmt.Sprintf("quota q1 url=%s %s", prng.Pick(r, []string{"verif.test/*", "verif.test/x", "*"}), validStrat(r).words()))
@@ -1344,6 +1374,9 @@ func gen(r *prng.R, f proto.Flags, emit func(proto.Case)) {
 	}
 	for i := 0; i < nF; i++ {
 		emit(fuzzCase(r.Fork(), next("f")))
+	}
+	for i := 0; i < 3*nF; i++ {
+		emit(realCase(r.Fork(), next("h")))
 	}
 	consts := []string{"a", "b"}
 	if thorough {
